@@ -5,6 +5,9 @@ from .strictdiff import replay_generic, report, strict_pair
 
 ID = "C03"
 LEVEL = "fault_enumeration"
+MIX = True  # a share of the decodes goes through the other front ends and byte sources (context.py)
+HISTORY = True  # every second shard first runs a prelude of earlier library use (history.py)
+OLANE = True  # two more shards run in an interpreter started with -O (runner.start_olane)
 RULE = (
     "(a) every size field (commandSize, responseSize, authSize, parameterSize, every nested TPM2B size) of every hypothesis-generated "
     "well-formed message x {-k,+k (k in 1,2,3,4,5,8), 0, max, fits-the-enclosing-region-exactly, exceeds-it-by-one}; (b) exhaustive: all byte "
